@@ -80,8 +80,15 @@ fn parse_single_input(s: String) -> Result<f32, RuntimeError> {
     if s.is_empty() {
         Ok(0.0)
     } else {
-        s.parse::<f32>()
-            .map_err(|e| RuntimeError::Other(format!("Could not parse {} as float: {}", s, e)))
+        let value = s
+            .parse::<f32>()
+            .map_err(|e| RuntimeError::Other(format!("Could not parse {} as float: {}", s, e)))?;
+        // the text might spell a number beyond the SINGLE range (or "inf", "nan")
+        if value.is_finite() {
+            Ok(value)
+        } else {
+            Err(RuntimeError::Overflow)
+        }
     }
 }
 
@@ -89,8 +96,15 @@ fn parse_double_input(s: String) -> Result<f64, RuntimeError> {
     if s.is_empty() {
         Ok(0.0)
     } else {
-        s.parse::<f64>()
-            .map_err(|e| RuntimeError::Other(format!("Could not parse {} as number: {}", s, e)))
+        let value = s
+            .parse::<f64>()
+            .map_err(|e| RuntimeError::Other(format!("Could not parse {} as number: {}", s, e)))?;
+        // the text might spell a number beyond the DOUBLE range (or "inf", "nan")
+        if value.is_finite() {
+            Ok(value)
+        } else {
+            Err(RuntimeError::Overflow)
+        }
     }
 }
 
